@@ -138,6 +138,22 @@ func NameHasSuffix(suffixes ...string) func(string) bool {
 func (p *Program) FieldName(in ssa.Instruction) string {
 	switch v := in.(type) {
 	case *ssa.FieldAddr:
+		// a field reached through an embedded (anonymous) unexported helper struct is named by the
+		// struct it is promoted to: `result.NextKeyMarker` is the same field whether it is declared
+		// on the result type or on a struct embedded in it
+		if outer, ok := v.X.(*ssa.FieldAddr); ok {
+			if ost, ok := deref(outer.X.Type()).Underlying().(*types.Struct); ok && outer.Field < ost.NumFields() {
+				ef := ost.Field(outer.Field)
+				if ef.Embedded() && !ef.Exported() {
+					if ist, ok := deref(v.X.Type()).Underlying().(*types.Struct); ok && v.Field < ist.NumFields() {
+						on := p.FieldName(outer)
+						if i := strings.LastIndex(on, "."); i > 0 {
+							return on[:i] + "." + ist.Field(v.Field).Name()
+						}
+					}
+				}
+			}
+		}
 		return p.fieldName(deref(v.X.Type()), v.Field)
 	case *ssa.Field:
 		return p.fieldName(v.X.Type(), v.Field)
